@@ -118,6 +118,12 @@ FAMILIES = {
     "invalid-unclosed-parens": lambda n: "x = " + "(" * n + "1" + ")" * (n - 1) + " y\n",
     "invalid-nested-parens-junk": lambda n: "x = " + "(" * n + "1" + ")" * n + " y\n",
     "invalid-statement-list": lambda n: "x = 1\n" * n + "x = = 1\n",
+    # long FLAT chains of clauses before a plain syntax error (the diagnostic pass walks the clause rules again)
+    "invalid-elif-chain": lambda n: "if a:\n    pass\n" + "".join(f"elif b{i}:\n    pass\n" for i in range(n)) + "z = = 1\n",
+    "invalid-elif-else-chain": lambda n: "if a:\n    pass\n" + "".join(f"elif b{i}:\n    pass\n" for i in range(n)) + "else:\n    pass\nz = = 1\n",
+    "invalid-except-chain": lambda n: "try:\n    pass\n" + "".join(f"except E{i}:\n    pass\n" for i in range(n)) + "z = = 1\n",
+    "invalid-case-chain": lambda n: "match x:\n" + "".join(f"    case {i}:\n        pass\n" for i in range(n)) + "z = = 1\n",
+    "elif-chain": lambda n: "if a:\n    pass\n" + "".join(f"elif b{i}:\n    pass\n" for i in range(n)) + "else:\n    pass\n",
     "invalid-arg-list": lambda n: "f(" + ", ".join(f"a{i}" for i in range(n)) + " b)\n",
     "invalid-binop-chain": lambda n: "x = 1" + " + 1" * n + " +\n",
     "invalid-list-literal": lambda n: "x = [" + ", ".join("1" for i in range(n)) + " 2]\n",
@@ -134,7 +140,7 @@ FAMILIES = {
     "invalid-subproc-unclosed": lambda n: "x = " + "$(echo " * n + "hi\n",
     "invalid-subproc": lambda n: "x = " + "$(echo " * n + "hi" + ")" * n + " = = 3\n",
 }
-DEEP = {"nested-sequence-patterns", "nested-group-patterns", "nested-class-patterns", "nested-mapping-patterns", "invalid-nested-sequence-patterns", "nested-parens", "nested-lists", "nested-calls", "nested-subscripts", "nested-dicts", "nested-lambdas", "nested-comprehensions", "nested-ifexp", "nested-subprocs", "nested-blocks", "invalid-unclosed-parens", "invalid-nested-parens-junk", "invalid-nested-blocks", "invalid-nested-calls", "invalid-subproc", "invalid-subproc-mismatch", "invalid-subproc-mismatch-mixed", "invalid-subproc-unclosed", "invalid-subproc-nested-groups", "invalid-subproc-nested-groups-macro", "subproc-nested-groups"}
+DEEP = {"invalid-elif-chain", "invalid-elif-else-chain", "invalid-except-chain", "invalid-case-chain", "elif-chain", "nested-sequence-patterns", "nested-group-patterns", "nested-class-patterns", "nested-mapping-patterns", "invalid-nested-sequence-patterns", "nested-parens", "nested-lists", "nested-calls", "nested-subscripts", "nested-dicts", "nested-lambdas", "nested-comprehensions", "nested-ifexp", "nested-subprocs", "nested-blocks", "invalid-unclosed-parens", "invalid-nested-parens-junk", "invalid-nested-blocks", "invalid-nested-calls", "invalid-subproc", "invalid-subproc-mismatch", "invalid-subproc-mismatch-mixed", "invalid-subproc-unclosed", "invalid-subproc-nested-groups", "invalid-subproc-nested-groups-macro", "subproc-nested-groups"}
 KNOWN = {
     "nested-pattern-sequence": "KF-C18-nested-sequence-patterns",
 }
